@@ -8,7 +8,7 @@ import re
 from . import rule
 from .zmq import anchors, Z, MQF, ret_const, stmt_list_containing
 from .c02 import data_publishes
-from ..model import Unresolved, walk_scope, parent, enclosing_function, qualname
+from ..model import Unresolved, walk_scope, parent, enclosing_function, qualname, ancestors as ancestors_of
 from ..paths import U, Path, Evaluator
 from .. import q
 
@@ -308,6 +308,18 @@ def r5(rr, repo):
     dels = [n for n in ast.walk(za.S_cls) if isinstance(n, ast.Delete) and any('clients[' in U(t) for t in n.targets)] + \
            [c for c in q.calls_in(za.S_cls) if isinstance(c.func, ast.Attribute) and c.func.attr == 'pop' and U(c.func.value) in ('clients', 'self.clients') and c.args]      # clients.pop(key, None) removes as well
     rr.ob('clients are removed at exactly two places (CLOSE, timeout)', len(dels) == 2 and all(enclosing_function(d) is za.S_poll for d in dels), za.mod, za.S_poll, witness=f'{len(dels)} sites', key='del-sites')
+    # the CLOSE of one connection removes that connection: its own key (client id + the connection's unique id), not every connection that carries the same client id - two consumers that
+    # share a filter id (replicas, a restarted consumer next to its predecessor) are two consumers, and the stalled one must go on being waited for when the other one leaves
+    for d in dels:
+        g = q.effective_guards(d, za.S_poll)
+        if not any('MSG_ID_CLOSE' in t and pol for t, pol in g):
+            continue
+        loops = [a for a in ancestors_of(d) if isinstance(a, (ast.For, ast.While, ast.ListComp, ast.GeneratorExp)) and any(x is za.S_poll for x in ancestors_of(a))]
+        over_clients = [a for a in loops if isinstance(a, ast.For) and 'clients' in U(a.iter)]
+        key = d.args[0] if isinstance(d, ast.Call) else (d.targets[0].slice if isinstance(d, ast.Delete) and isinstance(d.targets[0], ast.Subscript) else None)
+        own = [n for n in walk_scope(za.S_poll) if isinstance(n, ast.Assign) and key is not None and U(n.targets[0]) == U(key) and 'uid' in U(n.value)]
+        rr.ob('a CLOSE removes the closing connection only (its own key, not a sweep over the clients)', not over_clients and bool(own), za.mod, d,
+              witness=f'key {U(key) if key is not None else "?"}' + (f'; inside `for {U(over_clients[0].target)} in {U(over_clients[0].iter)[:60]}`' if over_clients else ''), key='close-removes-own-connection')
     seen = set()
     for p in za.paths('poll'):
         for e in p.events:
